@@ -82,10 +82,6 @@ def runCopy (j : Json) : Json :=
 
 open Askar.Indy
 
-def toyAead : Aead where
-  enc k n m := k ++ n ++ m
-  dec k n c := if c.take (k.length + n.length) == k ++ n then some (c.drop (k.length + n.length)) else none
-
 def utf8dec (b : Bytes) : Option String := String.fromUTF8? (ByteArray.mk b.toArray)
 
 def toyKeys : Keys := { typeKey := [1], nameKey := [2], valueKey := [3], tagNameKey := [4], tagValueKey := [5] }
